@@ -9,7 +9,7 @@ ENGINE = 'E1 full product (writer level) + size ladder end-to-end'
 RULE = ("writer level: every vrl of the tier x every body length 1..60 and k*cap+-14 x {EFLR, IFLR}, write must "
         "succeed and pass the C01/C02 oracles; end-to-end: the minimal specification at every vrl of the tier (record length given as a keyword, through a ready-made label, or set on the label afterwards), and a "
         "size ladder (frame row width 1..24 bytes, frame/channel/no-format name lengths 1..255, payloads 0..30) at "
-        "small and default record lengths; ordered pairs of record lengths written one after the other in one process; non-trivial = the write was attempted on a valid specification")
+        "small and default record lengths; ordered pairs of record lengths written one after the other in one process; single records of 500..4000 segments; non-trivial = the write was attempted on a valid specification")
 ASSUMPTIONS = ["strict reader mc/rp66.py", "reference model mc/model.py"]
 
 
@@ -21,6 +21,7 @@ def shards(tier):
     lad = [20, 22, 30, 32, 34, 64, 128, 8192] if tier == 'quick' else [20, 22, 24, 26, 28, 30, 32, 34, 40, 64, 128, 1000, 8192, 16384]
     out += [{'kind': 'ladder', 'vrl': x} for x in lad]
     out.append({'kind': 'pairs'})
+    out += [{'kind': 'long', 'vrl': v_} for v_ in (20, 22, 32, 64, 128)]
     return out
 
 
@@ -43,6 +44,17 @@ def cases(shard, tier):
             for L in (1, 11, cap - 1, cap + 1, 3 * cap + 5):
                 yield {'k': 'wl', 'vrl': vrl, 'recs': [['I1', L, 1], ['E3', L + 1, 2], ['I0', max(L - 1, 1), 3]], 'ocs': vrl}
                 yield {'k': 'wl', 'vrl': vrl, 'recs': [['I1', L, 1], ['E3', L + 1, 2], ['I0', max(L - 1, 1), 3]], 'ocs': vrl + 2}
+    elif shard['kind'] == 'long':
+        # ONE record of several hundred to several thousand segments ("many times the record capacity")
+        vrl = shard['vrl']
+        cap = vrl - 8
+        for nseg in (500, 989, 990, 1001, 1500, 2500, 4000):
+            for r in (0, 5, 11):
+                for cn in ('I1', 'E3'):
+                    yield {'k': 'wl', 'vrl': vrl, 'recs': [[cn, nseg * cap + r, r % 5]], 'ocs': 2 ** 16}
+        # and end to end: a no-format payload and a frame row of that size
+        for nseg in (1001, 2500):
+            yield {'k': 'nf', 'vrl': vrl, 'n': nseg * cap + 3}
     elif shard['kind'] == 'pairs':
         # two files written one after the other in one process with different record lengths: what can be written must
         # not depend on what was written before
